@@ -1,4 +1,5 @@
 import T4V.Model.Inline
+import T4V.Model.Lattice
 import T4V.Sexp
 import T4V.Model.Post
 /-! Wire encoding of Layer-B model inputs/outputs (S-expressions). -/
@@ -142,5 +143,34 @@ def runInline (s : Sexp) : String :=
       | none => "ok error"
       | some out => "ok " ++ " ".intercalate (out.map fun (k, g) => s!"(cell {k} {encodeGeom g})")
   | _, _ => "err bad-request"
+
+/-- `(lat (base (v x y z)…) (bounds (r lo hi)…) (spec u…) (univ n) [(filltr x…)] [(trcl x…)])` → the cells
+`develop_lattice` creates: index, translation, fill universe (`-` = own universe), FILL transformation -/
+def runLattice (s : Sexp) : String :=
+  let floats (l : List Sexp) : Option (List Float) := l.mapM fun a => a.atom?.bind parseFloat?
+  let r : Option (List (V3 Float) × List (Int × Int) × List Nat × Nat × Option (List Float) × Option (List Float)) := do
+    let base ← (← s.field? "base").args.mapM fun v => do
+      match ← floats v.args with
+      | [x, y, z] => some (⟨x, y, z⟩ : V3 Float)
+      | _ => none
+    let bounds ← (← s.field? "bounds").args.mapM fun b =>
+      match b.args with
+      | [.atom lo, .atom hi] => do pure (← lo.toInt?, ← hi.toInt?)
+      | _ => none
+    let spec ← (← s.field? "spec").args.mapM fun a => a.atom?.bind String.toNat?
+    let univ ← match (← s.field? "univ").args with | [.atom u] => u.toNat? | _ => none
+    let filltr ← match s.field? "filltr" with | some f => (floats f.args).map some | none => some none
+    let trcl ← match s.field? "trcl" with | some f => (floats f.args).map some | none => some none
+    pure (base, bounds, spec, univ, filltr, trcl)
+  match r with
+  | none => "err bad-request"
+  | some (base, bounds, spec, univ, filltr, trcl) =>
+    match developLattice base bounds spec univ filltr trcl with
+    | .error .dims => "ok error dims"
+    | .error .nontrivial => "ok error nontrivial"
+    | .error .transform => "ok error transform"
+    | .ok els => "ok " ++ " ".intercalate (els.map fun e =>
+        ",".intercalate (e.index.map toString) ++ ":" ++ s!"{e.transl.x.toBits},{e.transl.y.toBits},{e.transl.z.toBits}:" ++
+        (match e.fill with | some u => toString u | none => "-") ++ ":" ++ ",".intercalate (e.filltr.map fun v => toString v.toBits))
 
 end T4V
